@@ -530,12 +530,10 @@ def hasMantissaDigit (s : List Nat) : Option Bool :=
   match s with
   | [] => none
   | c :: s1 =>
-    let s := if c = 43 ∨ c = 45 then s1 else s
-    match s with
+    match (if c = 43 ∨ c = 45 then s1 else c :: s1) with
     | [] => none
     | d :: s2 =>
-      let s := if d = 46 then s2 else s
-      match s with
+      match (if d = 46 then s2 else d :: s2) with
       | [] => none
       | x :: _ => some (isDigit x)
 
